@@ -62,12 +62,14 @@ def any_dependency_to_module_other_than(
     # should submodules of the dependent module import each other, this does not count as a dependency
     nodes_that_do_not_fulfill_criterion = get_all_submodules_of(graph, dependent)
 
+    # nodes whose own imports are not analysed
+    importers_to_skip = set()
     if dependent.identifier_is_parent_module:
         # if the parent module is set and has a dependency other than dependent upon, it should not count as only
         # the dependent and its submodules should be considered
         # Example: if we are looking for imports by A.X, we do not care if A itself imports something
         # (but we do care if A.X.M (submodule of A.X) imports something, as this is part of A.X)
-        nodes_to_exclude.add(dependent.identifier)
+        importers_to_skip.add(dependent.identifier)
 
     for dependent_upon in dependent_upons:
         if dependent_upon.identifier_is_parent_module:
@@ -89,7 +91,7 @@ def any_dependency_to_module_other_than(
         if node in checked_nodes:
             continue
 
-        if node in nodes_to_exclude:
+        if node in importers_to_skip:
             continue
 
         checked_nodes.add(node)
@@ -103,8 +105,6 @@ def any_dependency_to_module_other_than(
                     and child not in nodes_that_do_not_fulfill_criterion
                 ):
                     nodes_fulfilling_criteria.append(tuple(to_modules([node, child])))
-                else:
-                    nodes_to_check.append(child)
 
     return nodes_fulfilling_criteria  # type: ignore
 
